@@ -766,6 +766,9 @@ caf_write_header (SF_PRIVATE *psf, int calc_length)
 	/* The header must end where the audio data starts : never write a header of another length over existing data. */
 	if (has_data && psf->dataoffset != psf->header.indx)
 	{	psf_log_printf (psf, "Oooops : has_data && psf->dataoffset != psf->header.indx\n") ;
+		/* Nothing was written : put the file back where the caller had it. */
+		if (current > 0)
+			psf_fseek (psf, current, SEEK_SET) ;
 		return psf->error = SFE_INTERNAL ;
 		} ;
 
